@@ -7,6 +7,8 @@ import DtsVerif.Drv.MonteCarlo
 import DtsVerif.Drv.Average
 import DtsVerif.Drv.Resid
 import DtsVerif.Drv.Attrs
+import DtsVerif.Drv.TimeCoords
+import DtsVerif.Drv.Chunk
 /-! Line-protocol driver: one JSON request per line on stdin, one JSON reply per line on stdout. -/
 open Lean DtsVerif.Drv
 
@@ -30,6 +32,9 @@ def dispatch (op : String) (j : Json) : R Json :=
   | "resid.place" => opResidPlace j
   | "resid.var" => opSampleVar j
   | "attrs" => opAttrs j
+  | "time.coords" => opTimeCoords j
+  | "time.convert" => opTimeConvert j
+  | "chunk" => opChunk j
   | _ => throw "bad-op"
 
 def handle (line : String) : String :=
